@@ -73,7 +73,10 @@ struct ChannelSlot {
 
 impl ChannelSlot {
     fn new(mio_channel_bound: usize, channel_id: u16) -> (ChannelSlot, IoLoopHandle) {
-        let (mio_tx, mio_rx) = mio_sync_channel(mio_channel_bound);
+        // A zero-capacity (rendezvous) channel cannot be used here: its send only completes
+        // once the I/O thread receives, but the I/O thread is only woken up to receive after
+        // the send has completed. A bound of 0 therefore gets the smallest capacity that works.
+        let (mio_tx, mio_rx) = mio_sync_channel(usize::max(1, mio_channel_bound));
 
         // Bound of 2 is intentional here. The normal case for this channel is that it
         // will have at most 1 message in it (the response to a synchronous RPC call).
